@@ -675,7 +675,7 @@ func TestCheck(t *testing.T) {
 	if os.Getenv("VERIF_RACE_SUBSET") == "" {
 		exhaustive(t, r, &idx)
 	}
-	n := r.Env.N(500, 100000)
+	n := r.Env.N(1500, 100000)
 	if os.Getenv("VERIF_RACE_SUBSET") != "" {
 		n = r.Env.N(150, 5000)
 	}
